@@ -4,8 +4,10 @@
    Uses a scratch worktree /tmp/seedwt (+ plain build /tmp/seedwt_plain for tests/demo, hooks build /tmp/seedwt_verif for the checks)."""
 import sys, os, subprocess, json, shutil, time
 seed = os.path.abspath(sys.argv[1]); props = sys.argv[2:]
-WT, PLAIN, VB, OUT = "/tmp/seedwt", "/tmp/seedwt_plain", "/tmp/seedwt_verif", "/tmp/seedwt_out"
+SLOT = os.environ.get("SEEDTEST_SLOT", "")   # several seedtests can run side by side with different slots
+WT, PLAIN, VB, OUT = "/tmp/seedwt" + SLOT, "/tmp/seedwt_plain" + SLOT, "/tmp/seedwt_verif" + SLOT, "/tmp/seedwt_out" + SLOT
 def sh(cmd, **kw):
+    cmd = cmd.replace("DEMOBIN", "/tmp/seed_demo" + SLOT)
     p = subprocess.run(cmd, shell=True, stdout=subprocess.PIPE, stderr=subprocess.STDOUT, text=True, **kw); return p.returncode, p.stdout
 if not os.path.exists(WT):
     sh("git -C /repo worktree add -f --detach %s HEAD" % WT)
@@ -17,7 +19,7 @@ try: HOOKS_DEMO = json.load(open(seed + "/meta.json")).get("demo_build") == "hoo
 except Exception: HOOKS_DEMO = False
 def build_demo():
     if HOOKS_DEMO:   # the demo observes the library through the guarded hooks: build it against a hooks-enabled build of the worktree
-        HB = "/tmp/seedwt_hooks"
+        HB = "/tmp/seedwt_hooks" + SLOT
         if not os.path.exists(HB + "/build.ninja"):
             sh('cmake -G Ninja -S %s -B %s -DCMAKE_BUILD_TYPE=Release -DCMAKE_CXX_FLAGS="-Wno-error -DIBEX_VERIF_HOOKS" -DINTERVAL_LIB=gaol -DLP_LIB=none' % (WT, HB))
         rc, out = sh("ninja -C %s ibex" % HB)
@@ -25,15 +27,15 @@ def build_demo():
         txt = open(HB + "/build.ninja").read()
         import re
         inc = re.search(r"ibex_Interval\.cpp\.o:.*?\n(?:  .*\n)*?  INCLUDES = (.*)", txt).group(1)
-        rc, out = sh("g++ -O1 -std=gnu++11 -msse3 -frounding-math -w -DIBEX_VERIF_HOOKS %s %s/demo.cpp -o /tmp/seed_demo %s/src/libibex.a %s/interval_lib_wrapper/gaol/gaol-4.2.3alpha0-build/libgaol.a %s/interval_lib_wrapper/gaol/mathlib-2.1.1-build/libultim.a -ldl" % (inc, seed, HB, HB, HB))
+        rc, out = sh("g++ -O1 -std=gnu++11 -msse3 -frounding-math -w -DIBEX_VERIF_HOOKS %s %s/demo.cpp -o DEMOBIN %s/src/libibex.a %s/interval_lib_wrapper/gaol/gaol-4.2.3alpha0-build/libgaol.a %s/interval_lib_wrapper/gaol/mathlib-2.1.1-build/libultim.a -ldl" % (inc, seed, HB, HB, HB))
         if rc: return None, out[-500:]
-        rc, out = sh("timeout 300 /tmp/seed_demo"); return rc, out[-300:]
+        rc, out = sh("timeout 300 DEMOBIN"); return rc, out[-300:]
     txt = open(PLAIN + "/build.ninja").read()
     import re
     inc = re.search(r"ibex_Interval\.cpp\.o:.*?\n(?:  .*\n)*?  INCLUDES = (.*)", txt).group(1)
-    rc, out = sh("g++ -O1 -std=gnu++11 -msse3 -frounding-math -w %s %s/demo.cpp -o /tmp/seed_demo %s/src/libibex.a %s/interval_lib_wrapper/gaol/gaol-4.2.3alpha0-build/libgaol.a %s/interval_lib_wrapper/gaol/mathlib-2.1.1-build/libultim.a -ldl" % (inc, seed, PLAIN, PLAIN, PLAIN))
+    rc, out = sh("g++ -O1 -std=gnu++11 -msse3 -frounding-math -w %s %s/demo.cpp -o DEMOBIN %s/src/libibex.a %s/interval_lib_wrapper/gaol/gaol-4.2.3alpha0-build/libgaol.a %s/interval_lib_wrapper/gaol/mathlib-2.1.1-build/libultim.a -ldl" % (inc, seed, PLAIN, PLAIN, PLAIN))
     if rc: return None, out[-500:]
-    rc, out = sh("timeout 300 /tmp/seed_demo"); return rc, out[-300:]
+    rc, out = sh("timeout 300 DEMOBIN"); return rc, out[-300:]
 # 1. with the patch
 rc, out = sh("git -C %s apply %s/patch.diff" % (WT, seed)); res["applies"] = rc == 0
 if rc: print(json.dumps(res), out); sys.exit(1)
